@@ -42,22 +42,50 @@ func (c filterCfg) spec() packets.PacketFilterSpec {
 	return packets.PacketFilterSpec{}
 }
 
-func vmFor(c filterCfg) (*bpf.VM, error) {
-	var prog []bpf.RawInstruction
-	var err error
-	if c.Type == "drop" {
-		prog = packets.VerifDropAllFilter()
-	} else {
-		prog, err = packets.VerifClassicBPF(c.spec())
-		if err != nil {
-			return nil, err
+// vmFor compiles the program of a configuration the way a capture handle would, with one twist: between
+// the moment the program is handed out and the moment it is used, a program for a different tuple is
+// requested (another run setting up its own filter). The first program must be unaffected by that; the
+// returned string says how it changed if it was not.
+func vmFor(c filterCfg) (*bpf.VM, string, error) {
+	get := func(c filterCfg) ([]bpf.RawInstruction, error) {
+		if c.Type == "drop" {
+			return packets.VerifDropAllFilter(), nil
 		}
+		return packets.VerifClassicBPF(c.spec())
+	}
+	prog, err := get(c)
+	if err != nil {
+		return nil, "", err
+	}
+	snap := append([]bpf.RawInstruction(nil), prog...)
+	other := filterCfg{Type: c.Type, Src: "198.51.100.77", Dst: "203.0.113.9", SPort: c.SPort ^ 0x5a5a, DPort: c.DPort ^ 0x00ff}
+	if other.Src == c.Src {
+		other.Src = "198.51.100.78"
+	}
+	_, _ = get(other)
+	if c.Type != "tcp" {
+		_, _ = get(filterCfg{Type: "tcp", Src: other.Src, Dst: other.Dst, SPort: other.SPort, DPort: other.DPort})
+	}
+	changed := ""
+	if len(prog) != len(snap) {
+		changed = fmt.Sprintf("program length went from %d to %d instructions", len(snap), len(prog))
+	} else {
+		for i := range prog {
+			if prog[i] != snap[i] {
+				changed = fmt.Sprintf("instruction %d went from %+v to %+v", i, snap[i], prog[i])
+				break
+			}
+		}
+	}
+	if changed != "" {
+		changed = fmt.Sprintf("the program handed out for %+v changed when a program for %+v was requested afterwards: %s", c, other, changed)
 	}
 	insts, ok := bpf.Disassemble(prog)
 	if !ok {
-		return nil, fmt.Errorf("program does not disassemble")
+		return nil, changed, fmt.Errorf("program does not disassemble")
 	}
-	return bpf.NewVM(insts)
+	vm, err := bpf.NewVM(insts)
+	return vm, changed, err
 }
 
 // ---- reference predicates, written from the property text (classic BPF: an out-of-bounds load rejects) ----
@@ -243,9 +271,18 @@ func TestC12Classes(t *testing.T) {
 	protos := []string{"icmp", "tcp", "udp", "icmp6", "frag-icmp6", "frag-tcp", "other"}
 	frags := []uint16{0, 0x2000, 0x0001, 0x1fff, 0x4000}
 	for _, cfg := range c12Configs {
-		vm, err := vmFor(cfg)
+		vm, changed, err := vmFor(cfg)
 		if err != nil {
 			t.Fatalf("program for %+v: %v", cfg, err)
+		}
+		if changed != "" {
+			d := []Diff{{"C12", "program-changed-after-handout", changed}}
+			if len(filterDiffs("C12", d, rec)) > 0 {
+				rec.Violations++
+				writeFailure("C12", t.Name(), &frameCase{Cfg: cfg}, d)
+				t.Errorf("%s", d[0])
+				return
+			}
 		}
 		try := func(f []byte, near bool) bool {
 			msg, ok := checkFrame(vm, cfg, f)
@@ -306,11 +343,15 @@ func TestC12Classes(t *testing.T) {
 }
 
 func checkC12Frame(t *testing.T, fc *frameCase, rec *Recorder) []Diff {
-	vm, err := vmFor(fc.Cfg)
+	vm, changed, err := vmFor(fc.Cfg)
 	if err != nil {
 		// an unrepresentable configuration must be refused, not mis-compiled
 		rec.Case(scenarioKey(fc), false, nil, "config-refused")
 		return nil
+	}
+	if changed != "" {
+		rec.Case(scenarioKey(fc), true, fc, "program:"+fc.Cfg.Type)
+		return []Diff{{"C12", "program-changed-after-handout", changed}}
 	}
 	msg, ok := checkFrame(vm, fc.Cfg, fc.Frame)
 	near := len(fc.Frame) > 23
